@@ -33,7 +33,9 @@ Emit ==
                           THEN <<[field |-> "obs", bt |-> "within", r |-> <<0, 2, 3>>, table |-> TableJ(ConditionalTable(X, m, "obs", "within", Ths, Legend))],
                                  [field |-> "fcst", bt |-> "within=", r |-> <<0, 2, 3>>, table |-> TableJ(ConditionalTable(X, m, "fcst", "within=", Ths, Legend))],
                                  [field |-> "obs", bt |-> "above=", r |-> <<0, 2, 3>>, table |-> TableJ(ConditionalTable(X, m, "obs", "above=", Ths, Legend))],
-                                 [field |-> "fcst", bt |-> "below", r |-> <<0, 2, 3>>, table |-> TableJ(ConditionalTable(X, m, "fcst", "below", Ths, Legend))]>>
+                                 [field |-> "fcst", bt |-> "below", r |-> <<0, 2, 3>>, table |-> TableJ(ConditionalTable(X, m, "fcst", "below", Ths, Legend))],
+                                 \* bin edges with more significant digits than the scores are printed with: the row label is the edge, not a rounded edge
+                                 [field |-> "obs", bt |-> "above", r |-> <<"0.5", "2.2501", "3">>, table |-> TableJ(ConditionalTable(X, m, "obs", "above", <<Frac(1, 2), Frac(22501, 10000), R(3)>>, Legend))]>>
                           ELSE <<>>,
                  acc |-> IF axis = "threshold" THEN <<>> ELSE TableJ(ScoreTable(Ds, X, m, axis, Cfg, TRUE, Legend))]))
 Init == /\ gen \in {x \in Universe(0) : Usable(x)} /\ m \in Menu /\ axis \in AxisMenu /\ phase = "case"
